@@ -13,7 +13,7 @@ WORK = os.path.join(ROOT, "work")
 REPLAY = os.path.join(ROOT, "replay")
 EVID = os.path.join(ROOT, "evidence")
 HARNESS = os.path.join(ROOT, "harness")
-VH = os.path.join(HARNESS, "target", "debug", "vh")
+BIN_DIR = os.path.join(HARNESS, "target", "debug")
 TLA_JAR = "/opt/veriftools/tla/tla2tools.jar"
 COMMUNITY = "/opt/veriftools/tla/CommunityModules-deps.jar"
 
@@ -29,8 +29,13 @@ def log(*a):
 # --------------------------------------------------------------------------------------------
 # harness build
 
-def build_harness():
-    """cargo build of the harness against /repo's current working tree (path deps)."""
+_built = set()
+
+
+def build_harness(binary):
+    """cargo build of one harness binary against /repo's current working tree (path deps)."""
+    if binary in _built or os.environ.get("VERIF_NO_BUILD"):
+        return 0.0
     os.makedirs(WORK, exist_ok=True)
     lock = open(os.path.join(WORK, ".build.lock"), "w")
     fcntl.flock(lock, fcntl.LOCK_EX)
@@ -43,19 +48,24 @@ def build_harness():
             shutil.copy(rl, hl)
         t0 = time.time()
         env = dict(os.environ, CARGO_NET_OFFLINE="true")
-        p = subprocess.run(["cargo", "build", "--offline", "--quiet"], cwd=HARNESS, env=env,
+        p = subprocess.run(["cargo", "build", "--offline", "--quiet", "--bin", binary], cwd=HARNESS, env=env,
                            stdout=subprocess.PIPE, stderr=subprocess.STDOUT, text=True)
         if p.returncode != 0:
             sys.stderr.write(p.stdout[-6000:])
             raise ToolError("harness build failed (the tree under /repo does not compile with the harness)")
-        return time.time() - t0
+        _built.add(binary)
+        dt = time.time() - t0
+        log("harness %s built in %.1fs" % (binary, dt))
+        return dt
     finally:
         fcntl.flock(lock, fcntl.LOCK_UN)
         lock.close()
 
 
-def vh(args, stdin_path=None, stdout_path=None, timeout=3600, env=None, check=True):
-    """Run the harness binary. Returns (rc, stdout_text)."""
+def vh(binary, args, stdin_path=None, stdout_path=None, timeout=3600, env=None, check=True):
+    """Build (once per process) and run a harness binary. Returns (rc, stdout_text)."""
+    build_harness(binary)
+    VH = os.path.join(BIN_DIR, binary)
     e = dict(os.environ)
     e.setdefault("RUST_BACKTRACE", "0")
     if env:
